@@ -228,6 +228,37 @@ pub fn check_program(ctx: &mut Ctx, prog: &Program, src: &str, origin: &str) {
         ctx.violation("program_changed_by_linting", "the debug rendering of the program differs after Linter::run", case());
         return;
     }
+    // a Linter value that has linted the programs before this one reports what a fresh one reports
+    {
+        thread_local! {
+            static REUSED: std::cell::RefCell<mon::ReusedLinter> = std::cell::RefCell::new(mon::ReusedLinter::new());
+        }
+        let again = REUSED.with(|l| l.borrow_mut().run(prog));
+        ctx.sites.absorb();
+        match again {
+            Ok(d) if same_diags(&d, &std) => ctx.count("programs_linted_with_a_reused_linter"),
+            Ok(d) => {
+                let k = d.iter().zip(std.iter()).position(|(a, b)| a != b).unwrap_or(d.len().min(std.len()));
+                ctx.violation(
+                    "reused_linter_differs",
+                    &format!(
+                        "a linter used for other programs before reports {} diagnostics, a fresh one {}; first difference at #{}: {:?} vs {:?}",
+                        d.len(),
+                        std.len(),
+                        k,
+                        d.get(k).map(|x| (x.line, &x.issue)),
+                        std.get(k).map(|x| (x.line, &x.issue))
+                    ),
+                    case(),
+                );
+                return;
+            }
+            Err(p) => {
+                ctx.panic_outcome("lint_reused", &p, case());
+                return;
+            }
+        }
+    }
     ctx.add("diagnostics", std.len() as u64);
     // combined = stable sort by line of (pass 1 ++ pass 2)
     let mut want: Vec<DiagRec> = boring.iter().cloned().chain(pronoun.iter().cloned()).collect();
